@@ -26,6 +26,10 @@ func VerifC01_simple_handler() {
 	s, err := New(Opts[int]{Divider: divider.Fair, Handle: handle, HandlersQuantity: uint(H), Inputs: map[uint]<-chan int{1: in}})
 	vAssume(err == nil)
 	vAssert(vSpawnCount() == 1+H, "C01/C19: New starts the scheduling goroutine and exactly HandlersQuantity handlers")
+	vAssert(vSpawnCount() >= 2, "C07: at least one handler runs (otherwise a delivered item is never released and the discipline never terminates)")
+	if vSpawnCount() != 1+H {
+		return // the rest of the harness runs the H handlers one by one
+	}
 	for i := 1; i <= H; i++ {
 		vAssert(vSpawnedIs(i, "handler"), "C19: the goroutines started by the simplified discipline are handlers")
 	}
